@@ -127,7 +127,7 @@ CHECKS = {
         dict(prop="C16", harness="api_pbt", quick=dict(count=1600, workers=8), thorough=dict(count=50000, workers=16),
              essential=_ALL_SCHEMAS + ["on-disk", "in-memory", "files-compared", "track-with-performance-data"]),
         dict(prop="C16.table", harness="table_pbt", quick=dict(count=1200, workers=4), thorough=dict(count=40000, workers=16),
-             essential=_V2_SCHEMAS + ["on-disk", "in-memory", "files-compared", "dangling-entities"])]),
+             essential=_V2_SCHEMAS + ["on-disk", "in-memory", "files-compared", "dangling-entities", "value-related-rows"])]),
     "C02": dict(level="exploration", parts=[
         dict(prop="C02.enc", harness="codec_pbt", quick=dict(count=24000, workers=8), thorough=dict(count=2400000, workers=16),
              essential=_CODEC_ESS_KINDS + ["label=255", "payload>16KiB", "payload=chunk-multiple", "payload=chunk-multiple-1", "payload=chunk-multiple+1"]),
@@ -303,7 +303,7 @@ RULES = {
            "on the reloaded library. table part: the same write monitor around every observing operation of the 2.x table API (track_table "
            "get / get_<col> / all_ids / exists / find_id_by_path, playlist_table get / all_ids / child_ids / descendant_ids / exists / find_* / "
            "root_ids, playlist_entity_table get / get_for_list / track_ids, information().get(), verify()) on generated rows and lists, incl. "
-           "entities that refer to a list / track that does not exist; on-disk variants also compare file digests around exists(), "
+           "entities that refer to a list / track that does not exist and rows related by value (a track stamped with the library's current played indicator, a track whose origin is this library, an entity of a foreign database); on-disk variants also compare file digests around exists(), "
            "engine_library::load + observation and load_database. "
            "Non-trivial = state has >=1 track and >=1 membership or nested crate.",
     "C02": "Two generated campaigns over all 11 blob kinds. enc: a logical value (finite doubles, labels 0..255 bytes of arbitrary content, "
